@@ -33,6 +33,11 @@ Definition op_wfb (t : ktype) (o : dop) : bool :=
 Definition imgs_eqb (a b : bytes * bytes * bytes) : bool :=
   bytes_eqb a.1.1 b.1.1 && bytes_eqb a.1.2 b.1.2 && bytes_eqb a.2 b.2.
 
+(** every number the layout stores in 8 bytes fits 64 bits *)
+Definition fits64b (s : store) : bool :=
+  (nb (hx s) <? 2 ^ 64) && (count (hx s) <? 2 ^ 64) && (hend (hx s) <? 2 ^ 64) &&
+  (fend (keyf s) <? 2 ^ 64) && (fend (valf s) <? 2 ^ 64).
+
 (** the committed history is well-formed; the model run on it from an empty map of the image's type
     and table size renders exactly the committed bytes; every expected entry is read back by the
     model and the length is the number of expected entries *)
@@ -47,6 +52,6 @@ Definition golden_ok (g : golden) : bool :=
     forallb (fun kv : bytes * bytes =>
                key_wfb (g_kt g) kv.1 &&
                match get s kv.1 with Ok (Some v) => bytes_eqb v kv.2 | _ => false end) (g_expected g) &&
-    (len s =? N.of_nat (length (g_expected g)))
+    (len s =? N.of_nat (length (g_expected g))) && fits64b s
   | _ => false
   end.
